@@ -194,7 +194,9 @@ uint8 CDT_ICACHE_FLASH_ATTR supla_esp_countdown_timer_countdown(
     supla_esp_state.Time2Left[i->channel_number] = i->time_left_ms;
   }
 
-  supla_esp_countdown_timer_startstop();
+  // Evaluate the running timers now: (re)arming the shared timer restarts its
+  // period, so a stream of commands on other channels must not postpone them.
+  supla_esp_countdown_timer_cb(NULL);
 
   return 1;
 }
